@@ -217,7 +217,7 @@ def check_property(pid, tier, keep=False):
         for bc in spec.get("bounded_checks", []):
             import finders
             os.environ["VERIF_TIER"] = tier
-            r = finders.run_crate_finder(bc["unit"], scratch, spec=(bc["host"], bc["file"]))
+            r = finders.run_crate_finder(bc["unit"], scratch, only=bc.get("only"), spec=(bc["host"], bc["file"]))
             rec = {"function": bc["function"], "bound": bc["bound"], "finder": bc["file"], "cmd": r["cmd"], "summaries": r["summaries"], "built": r["built"], "label": "bounded - not a proof"}
             bounded_runs.append(rec)
             if not r["built"]:
